@@ -45,7 +45,7 @@ def build_graph(desc, directed=None):
     n = desc['n']
     lab = label_fn(desc.get('labels', 'int'), n, desc.get('salt', 0))
     directed = desc.get('directed', False) if directed is None else directed
-    G = nx.DiGraph() if directed else nx.Graph()
+    G = nx.DiGraph() if directed else (nx.MultiGraph() if desc.get('multi') else nx.Graph())
     order = desc.get('node_order') or list(range(n))
     for i in order:
         G.add_node(lab(i))
